@@ -19,14 +19,15 @@ META = {
     "assumptions": [
         "random draws are replaced by fresh symbolic tensors of shape sample_shape + parameter shape, tagged with the distribution parameters they were drawn from (the sampler is environment)",
         "fit / fixed_poi_fit replaced by contract stubs (as C06/C08)",
-        "claimed: p-value = #{samples >= value}/n for all sample vectors and values (ties, outside range, any input shape), its range and monotonicity; layout of sampled data (shape, which distribution feeds which position, with which parameters); toy calculator wiring (hypothesis of each toy set, per-toy statistic on that toy's row with the caller's settings, CLs = CLsb/CLb)",
+        "draws items: inside pyhf.tensor.numpy_backend the random source (scipy.stats.norm/poisson, numpy.random) is a variate stub: standard-normal variates are free symbols z_k and a normal draw of the source is loc + scale*z_k; Poisson variates are free non-negative symbols recorded with the rate they were requested at; the backend's own normal_dist/poisson_dist(...).sample code runs on top of it",
+        "claimed: p-value = #{samples >= value}/n for all sample vectors and values (ties, outside range, any input shape), its range and monotonicity; layout of sampled data (shape, which distribution feeds which position, with which parameters); each numpy-backend normal draw is loc + scale * (one standard-normal variate, used once) and each Poisson draw a variate generated at that entry's rate; toy calculator wiring (hypothesis of each toy set, per-toy statistic on that toy's row with the caller's settings, CLs = CLsb/CLb)",
     ],
     "bounds": {
-        "quick": "sample vectors of length 1..5; sampling layout on family F (+8 seeded shapes), sample shapes (), (2,), (2,2); toy calculator with ntoys = 2 for {q, qtilde, q0}; median expected value for n <= 3",
+        "quick": "sample vectors of length 1..5; sampling layout on family F (+8 seeded shapes), sample shapes (), (2,), (2,2); draw routines on parameter vectors of length 2 and the same sample shapes; toy calculator with ntoys = 2 for {q, qtilde, q0}; median expected value for n <= 3",
         "thorough": "sample vectors up to 7, 200 seeded shapes, ntoys = 3",
     },
-    "stubs": ["backend poisson_dist/normal_dist .sample", "pyhf.infer.test_statistics.fit/fixed_poi_fit", "pyhf.infer.calculators.fixed_poi_fit"],
-    "outside_claim": ["everything distributional: integer-valuedness, mean/variance of draws, agreement with exact tail probabilities within binomial error (RNG + statistics, not encodable)", "expected_value percentiles other than the median (symbolic percentile rank)"],
+    "stubs": ["backend poisson_dist/normal_dist .sample", "pyhf.tensor.numpy_backend.norm/poisson/np.random (variate source, draws items)", "pyhf.infer.test_statistics.fit/fixed_poi_fit", "pyhf.infer.calculators.fixed_poi_fit"],
+    "outside_claim": ["everything distributional beyond the affine/identity relation to the source's variates: integer-valuedness and the law of the source's own variates, agreement with exact tail probabilities within binomial error (RNG + statistics, not encodable)", "draw routines of the jax/pytorch/tensorflow backends (library distribution objects, compiled)", "expected_value percentiles other than the median (symbolic percentile rank)"],
 }
 
 
@@ -44,6 +45,9 @@ def items(tier, seed):
         out.append(("layout", i, sh["tag"]))
     for ts in ("q", "qtilde", "q0"):
         out.append(("toycalc", ts, 2 if tier == "quick" else 3))
+    for dist in ("normal", "poisson"):
+        for shp in ((), (2,), (2, 2)) + (((3, 1, 2),) if tier != "quick" else ()):
+            out.append(("draws", dist, shp))
     return out
 
 
@@ -109,10 +113,44 @@ def harness_for(item):
         nd = cfg.nmaindata + cfg.nauxdata
         pars = common.par_symbols(env, model)
         if env.mode != "sym":
-            # concrete replay: only the shapes can be observed on the real sampler
+            # concrete replay: shapes on the real sampler; which distribution feeds which position with the two
+            # numpy draw routines replaced by identity stubs (pass A: draw = mean, pass B: draw = scale / -1 for Poisson)
+            import importlib
+            nb = importlib.import_module("pyhf.tensor.numpy_backend")
             for shp in ((), (2,), (2, 2)):
                 smp = model.make_pdf(tb.astensor(pars)).sample(shp)
                 env.holds(f"shape{shp}", tuple(np.shape(smp)) == tuple(shp) + (nd,), key="sample:shape")
+            user = common.user_cfg(spec)
+            terms = oracle.constraint_terms(env, spec, user, common.par_lookup(model, pars))
+            rates = model.expected_actualdata(tb.astensor(pars))
+            saved = (nb._BasicPoisson.sample, nb._BasicNormal.sample)
+            try:
+                for shp in ((), (2,), (2, 2)):
+                    idx0 = tuple(0 for _ in shp)
+                    nb._BasicPoisson.sample = lambda self, ss: np.broadcast_to(np.asarray(self.rate, dtype=float), tuple(ss) + np.shape(self.rate)).copy()
+                    nb._BasicNormal.sample = lambda self, ss: np.broadcast_to(np.asarray(self.loc, dtype=float), tuple(ss) + np.shape(self.loc)).copy()
+                    A = np.asarray(model.make_pdf(tb.astensor(pars)).sample(shp))
+                    nb._BasicPoisson.sample = lambda self, ss: -np.ones(tuple(ss) + np.shape(self.rate))
+                    nb._BasicNormal.sample = lambda self, ss: np.broadcast_to(np.asarray(self.scale, dtype=float), tuple(ss) + np.shape(self.loc)).copy()
+                    B = np.asarray(model.make_pdf(tb.astensor(pars)).sample(shp))
+                    if tuple(A.shape) != tuple(shp) + (nd,) or tuple(B.shape) != tuple(shp) + (nd,):
+                        continue
+                    A, B = A[idx0], B[idx0]
+                    for b in range(cfg.nmaindata):
+                        env.eq(f"draw-mean{shp}[{b}]", A[b], rates[b], key="sample:main-rate")
+                        env.eq(f"draw-scale{shp}[{b}]", B[b], -1, key="sample:main-position")
+                    p = cfg.nmaindata
+                    for n in cfg.auxdata_order:
+                        for t in terms[n]:
+                            if t[0] == "N":
+                                env.eq(f"draw-mean{shp}[{p}]", A[p], t[1], key="sample:aux-params")
+                                env.eq(f"draw-scale{shp}[{p}]", B[p], t[2], key="sample:aux-params")
+                            else:
+                                env.eq(f"draw-mean{shp}[{p}]", A[p], N(t[1]) * N(t[2]), key="sample:aux-params")
+                                env.eq(f"draw-scale{shp}[{p}]", B[p], -1, key="sample:aux-kind")
+                            p += 1
+            finally:
+                nb._BasicPoisson.sample, nb._BasicNormal.sample = saved
             return
         user = common.user_cfg(spec)
         terms = oracle.constraint_terms(env, spec, user, common.par_lookup(model, pars))
@@ -136,8 +174,11 @@ def harness_for(item):
             idx0 = tuple(0 for _ in shp)
             flat = smp[idx0] if shp else smp
             for b in range(cfg.nmaindata):
+                env.replay_as = f"draw-scale{shp}[{b}]"
                 env.holds(f"main-position{shp}[{b}]", flat[b] is main["out"][idx0 + (b,)], key="sample:main-position")
+                env.replay_as = f"draw-mean{shp}[{b}]"
                 env.eq(f"main-rate{shp}[{b}]", main["params"][0][b], rates[b], key="sample:main-rate")
+            env.replay_as = None
             # auxiliary entries: the draw at aux position p comes from the constraint term of that component
             p = cfg.nmaindata
             for n in cfg.auxdata_order:
@@ -149,6 +190,7 @@ def harness_for(item):
                         for j in range(np.shape(r["out"])[-1]):
                             if r["out"][idx0 + (j,)] is flat[p]:
                                 src = (r, j)
+                    env.replay_as = f"draw-scale{shp}[{p}]"
                     if src is None:
                         env.fail(f"aux-source{shp}[{n}]", "auxiliary entry is not a draw of any constraint distribution", key="sample:aux-position")
                         p += 1
@@ -157,13 +199,17 @@ def harness_for(item):
                     if t[0] == "N":
                         env.holds(f"aux-kind{shp}[{p}]", r["kind"] == "normal", key="sample:aux-kind")
                         if r["kind"] == "normal":
+                            env.replay_as = f"draw-mean{shp}[{p}]"
                             env.eq(f"aux-mean{shp}[{p}]", r["params"][0][j], t[1], key="sample:aux-params")
+                            env.replay_as = f"draw-scale{shp}[{p}]"
                             env.eq(f"aux-sigma{shp}[{p}]", r["params"][1][j], t[2], key="sample:aux-params")
                     else:
                         env.holds(f"aux-kind{shp}[{p}]", r["kind"] == "poisson", key="sample:aux-kind")
                         if r["kind"] == "poisson":
+                            env.replay_as = f"draw-mean{shp}[{p}]"
                             env.eq(f"aux-rate{shp}[{p}]", r["params"][0][j], t[1] * t[2], key="sample:aux-params")
                     p += 1
+            env.replay_as = None
 
     def toycalc(env):
         ts, ntoys = item[1], item[2]
@@ -241,4 +287,173 @@ def harness_for(item):
         else:
             env.holds("CLs=CLsb/CLb", (not float(CLb) > 0) or abs(float(CLs) * float(CLb) - float(CLsb)) < 1e-12, key="toys:pvalues")
 
-    return {"empirical": empirical, "median": median, "layout": layout, "toycalc": toycalc}[kind]
+    def draws(env):
+        """the numpy backend's own draw routines (_BasicNormal/_BasicPoisson.sample through normal_dist/poisson_dist)
+        with the random source stubbed: a normal draw is loc + scale * z for one standard-normal variate z of the source,
+        a Poisson draw is a variate the source generated at exactly that rate"""
+        import importlib
+        import z3
+        from ..stubs import patched
+        from ..sym import zexpr, SV
+        nb = importlib.import_module("pyhf.tensor.numpy_backend")
+        dist, shp = item[1], tuple(item[2])
+        tb = env.install_backend()
+        N = env.num
+        n = 2
+        src = _VariateSource(env, tb)
+        real = nb.numpy_backend()
+        if dist == "normal":
+            loc = [env.sym(f"loc{j}") for j in range(n)]
+            scale = [env.sym(f"scale{j}", positive=True) for j in range(n)]
+            with patched((nb, "norm", src.norm), (nb, "poisson", src.poisson), (nb, "np", src.np_shim())):
+                out = real.normal_dist(tb.astensor(loc), tb.astensor(scale)).sample(shp)
+        else:
+            rate = [env.sym(f"rate{j}", positive=True) for j in range(n)]
+            with patched((nb, "norm", src.norm), (nb, "poisson", src.poisson), (nb, "np", src.np_shim())):
+                out = real.poisson_dist(tb.astensor(rate)).sample(shp)
+        env.holds("shape", tuple(np.shape(out)) == shp + (n,), key=f"draws:{dist}:shape")
+        if tuple(np.shape(out)) != shp + (n,):
+            return
+        out = np.asarray(out, dtype=object)
+        used = []
+        for idx in np.ndindex(*out.shape):
+            j = idx[-1]
+            o = out[idx]
+            lab = f"{dist}-draw{list(idx)}"
+            key = f"draws:{dist}:value"
+            if dist == "normal":
+                if env.mode == "sym":
+                    zs = [k for k in _consts(zexpr(SV(o))) if k in src.zid]
+                    if len(zs) != 1:
+                        env.fail(lab, f"draw depends on {len(zs)} standard-normal variates of the source instead of one", key=key)
+                        continue
+                    k = src.zid[zs[0]]
+                else:
+                    k = min(range(len(src.z)), key=lambda k: abs(float(o) - (float(loc[j]) + float(scale[j]) * float(src.z[k])))) if src.z else None
+                    if k is None:
+                        env.fail(lab, "no variate was requested from the random source", key=key)
+                        continue
+                env.eq(lab, o, N(loc[j]) + N(scale[j]) * N(src.z[k]), key=key)
+                used.append(k)
+            else:
+                if env.mode == "sym":
+                    e = zexpr(SV(o))
+                    k = src.kid.get(e.get_id()) if z3.is_const(e) else None
+                else:
+                    c = [k for k in range(len(src.k)) if float(src.k[k]) == float(o)]
+                    k = min(c, key=lambda k: abs(float(src.krate[k]) - float(rate[j]))) if c else None
+                if k is None:
+                    env.fail(lab, "entry is not a variate generated by the Poisson source", key=key)
+                    continue
+                env.eq(lab, src.krate[k], rate[j], key=key)
+                used.append(k)
+        env.holds("each-variate-used-once", len(set(used)) == len(used) or env.mode != "sym", key=f"draws:{dist}:independent")
+
+    return {"empirical": empirical, "median": median, "layout": layout, "toycalc": toycalc, "draws": draws}[kind]
+
+
+def _consts(e):
+    """ids of the uninterpreted constants of a z3 term"""
+    import z3
+    seen, out, todo = set(), [], [e]
+    while todo:
+        t = todo.pop()
+        if t.get_id() in seen:
+            continue
+        seen.add(t.get_id())
+        if z3.is_const(t) and t.decl().kind() == z3.Z3_OP_UNINTERPRETED:
+            out.append(t.get_id())
+        todo.extend(t.children())
+    return out
+
+
+class _VariateSource:
+    """stands in for scipy.stats.norm/poisson and numpy.random inside pyhf.tensor.numpy_backend: standard-normal variates
+    are the symbols z0, z1, ... (a normal draw is loc + scale * z), Poisson variates the symbols k0, k1, ... each recorded
+    with the rate it was generated at"""
+
+    def __init__(self, env, tb):
+        self.env, self.tb = env, tb
+        self.z, self.zid, self.k, self.kid, self.krate = [], {}, [], {}, []
+
+    def _arr(self, vals, shape):
+        a = np.empty(len(vals), dtype=object)
+        for i, v in enumerate(vals):
+            a[i] = v
+        t = self.tb.astensor(list(a)) if len(vals) else self.tb.astensor([])
+        return self.tb.reshape(t, tuple(shape))
+
+    def _shape(self, size, *params):
+        if size is None:
+            return tuple(np.broadcast_shapes(*[np.shape(p) for p in params])) if params else ()
+        return (size,) if isinstance(size, (int, np.integer)) else tuple(size)
+
+    def standard_normal(self, size=None):
+        from ..sym import zexpr, SV
+        shape = self._shape(size)
+        vals = []
+        for _ in range(int(np.prod(shape, dtype=int))):
+            v = self.env.sym(f"z{len(self.z)}")
+            if self.env.mode == "sym":
+                self.zid[zexpr(SV(v)).get_id()] = len(self.z)
+            self.z.append(v)
+            vals.append(v)
+        return self._arr(vals, shape)
+
+    def normal(self, loc=0.0, scale=1.0, size=None):
+        shape = self._shape(size, loc, scale)
+        return loc + scale * self.standard_normal(shape)
+
+    def poisson_draw(self, lam=1.0, size=None):
+        from ..sym import zexpr, SV
+        shape = self._shape(size, lam)
+        lamb = np.broadcast_to(np.asarray(lam, dtype=object), shape)
+        vals = []
+        for idx in np.ndindex(*shape):
+            v = self.env.sym(f"k{len(self.k)}", nonneg=True)
+            if self.env.mode == "sym":
+                self.kid[zexpr(SV(v)).get_id()] = len(self.k)
+            self.k.append(v)
+            self.krate.append(lamb[idx])
+            vals.append(v)
+        return self._arr(vals, shape)
+
+    # scipy.stats.norm(loc, scale).rvs(size=...) / scipy.stats.poisson(rate).rvs(size=...)
+    def norm(self, loc=0.0, scale=1.0):
+        src = self
+
+        class _Frozen:
+            def rvs(self, size=None, random_state=None):
+                return src.normal(loc, scale, size)
+        return _Frozen()
+
+    def poisson(self, mu):
+        src = self
+
+        class _Frozen:
+            def rvs(self, size=None, random_state=None):
+                return src.poisson_draw(mu, size)
+        return _Frozen()
+
+    def np_shim(self):
+        src = self
+
+        class _Random:
+            standard_normal = staticmethod(src.standard_normal)
+            normal = staticmethod(src.normal)
+            poisson = staticmethod(src.poisson_draw)
+
+            @staticmethod
+            def default_rng(seed=None):
+                return _Random
+
+            @staticmethod
+            def seed(x=None):
+                return None
+
+        class _NP:
+            random = _Random
+
+            def __getattr__(self, k):
+                return getattr(np, k)
+        return _NP()
